@@ -51,8 +51,8 @@ MEASURES = {
 ASSUMPTIONS = [
     "pre-emption and crash points are the cache-folder system calls of each process (nothing else of a process is visible to another)",
     "reference answers come from a process of the same tree that read no cache file (private empty cache folder), so only cache-induced differences are flagged",
-    "lock holders are never stalled beyond filelock's 10 s timeout (outside the property's quantifier)",
-    "data files change only between phases, with a strictly larger mtime and a different size",
+    "a process may be left unscheduled for 11-25 simulated seconds at any yield point (longer than filelock's 10 s time-out of its peers); its peers must still start and answer correctly",
+    "data files change only between phases, with a strictly larger mtime (half of the edits keep the file size)",
 ]
 
 MTIME_NS = 1_700_000_000_000_000_000
@@ -235,8 +235,19 @@ class DataState:
             cur = f.read()
         self.orig.setdefault(rel, cur)
         self.gen += 1
-        new, n = re.subn(pat.encode(), (repl % (variant + 2)).encode(), cur, count=1, flags=re.M)
-        if n == 0 or new == cur or len(new) == len(cur):
+        same_size = variant >= 3  # variants 3..5: an in-place edit that keeps the file size (only the mtime tells)
+
+        def sub(mo):
+            text = (repl % ((variant % 3) + 2 + (7 if same_size else 0))).encode()
+            if same_size:
+                old_line = mo.group(0)
+                text = text[: len(old_line)].ljust(len(old_line), b"x") if len(text) != len(old_line) else text
+                if text == old_line:
+                    text = old_line[:-1] + (b"y" if old_line[-1:] != b"y" else b"z")
+            return text
+
+        new, n = re.subn(pat.encode(), sub, cur, count=1, flags=re.M)
+        if n == 0 or new == cur or (len(new) == len(cur) and not same_size):
             new = cur + b"\n# stale %d\n" % self.gen
         with open(path, "wb") as f:
             f.write(new)
@@ -401,6 +412,7 @@ class Run:
 
     # -- process control
     def spawn(self, idx: int, spec: dict) -> Proc:
+        spec = dict(spec)  # run-time marks (e.g. "_stalled") never leak into the plan
         p = Proc(idx, spec)
         c2p_r, c2p_w = os.pipe()
         p2c_r, p2c_w = os.pipe()
@@ -531,6 +543,20 @@ class Run:
             action = {"a": "go", "now": self.now}
             crash = p.spec.get("crash") or {}
             split = p.spec.get("split") or {}
+            stall = p.spec.get("stall") or {}
+            if stall.get("at_yield") == p.nyield - 1 and not p.spec.get("_stalled"):
+                # the process is not scheduled for a long (simulated) time at this point, e.g. while holding a lock:
+                # longer than filelock's 10 s time-out of its peers
+                p.spec["_stalled"] = True
+                p.nyield -= 1
+                p.wake = self.now + int(stall["us"])
+                self.fault("stall_beyond_lock_timeout")
+                if p.locks:
+                    self.probe("stalled_while_holding_lock")
+                self.log.add("stall", pi, step, p.idx, y["y"], stall["us"])
+                step += 1
+                self.steps += 1
+                continue
             if y["y"] == "commit":
                 n = int(y["n"])
                 if crash.get("tear_commit") == p.ncommit:
@@ -690,6 +716,9 @@ class Run:
         cuts = list(range(ph["from"], min(ph["to"], n), ph.get("stride", 1)))
         if ph.get("special"):
             cuts += [0, 1, 2, n - 1, n - 2] + self.frame_boundaries(content) + [b - 1 for b in self.frame_boundaries(content)] + [b + 1 for b in self.frame_boundaries(content)]
+            # prefixes that end in the pickle STOP opcode ('.') look complete to a naive check
+            stops = [k for k in range(1, n) if content[k - 1] == 0x2E]
+            cuts += stops[:: max(1, len(stops) // 24)][:30]
         cuts = sorted({c for c in cuts if 0 <= c < n})
         fb = set(self.frame_boundaries(content))
         for k in cuts:
@@ -784,7 +813,7 @@ def execute(plan: dict) -> dict:
 
 def families(tier: str):
     if tier == "quick":
-        return [("sched", 220), ("damage", 60), ("stale", 60), ("nocache", 50), ("sweepq", 12), ("sweepd", 12), ("sweepfull", 1)]
+        return [("sched", 220), ("damage", 60), ("stale", 60), ("nocache", 50), ("sweepq", 32), ("sweepd", 12), ("sweepfull", 1)]
     return [("sched", 12000), ("damage", 3000), ("stale", 3000), ("nocache", 3000), ("sweepq", 700), ("sweepd", 900), ("full", 32), ("sweepfull", 6)]
 
 
@@ -818,6 +847,8 @@ def _procs_phase(rng: random.Random, nmax: int, crash_rate: float):
             spec["crash"] = {"tear_commit": rng.randrange(3), "num": rng.randrange(den) if den > 1 else 0, "den": den}
         elif r < crash_rate + 0.2:
             spec["split"] = {"commit": rng.randrange(3), "num": rng.randrange(1, 8), "den": 8}
+        elif r < crash_rate + 0.27:
+            spec["stall"] = {"at_yield": rng.randrange(40), "us": rng.choice([11_000_000, 25_000_000])}
         procs.append(spec)
     style = rng.random()
     if style < 0.3:
@@ -854,7 +885,7 @@ def gen_plan(family: str, i: int, rng: random.Random, tier: str) -> dict:
             phases.append(_damage_phase(rng))
         phases.append(_procs_phase(rng, nmax, crash_rate=rng.choice([0.0, 0.15, 0.3])))
         if rng.random() < 0.25:
-            phases.append({"kind": "stale", "target": rng.choice(sorted(STALE_TARGETS)), "variant": rng.randrange(3)})
+            phases.append({"kind": "stale", "target": rng.choice(sorted(STALE_TARGETS)), "variant": rng.randrange(6)})
             phases.append(_procs_phase(rng, min(nmax, 4), crash_rate=0.1))
         phases.append({"kind": "heal"})
         return {"profile": profile, "phases": phases}
@@ -886,14 +917,14 @@ def gen_plan(family: str, i: int, rng: random.Random, tier: str) -> dict:
             return wl
 
         warm = {"kind": "procs", "procs": [{"flavour": "normal", "workload": [["cfg", rng.randrange(6)]] + tkeys + [["cfg", rng.randrange(6)]]}], "sched": [], "sched_seed": 0}
-        phases = [warm, {"kind": "stale", "target": target, "variant": rng.randrange(3)}]
+        phases = [warm, {"kind": "stale", "target": target, "variant": rng.randrange(6)}]
         n = rng.choice([1, 1, 2, 3])
         procs = [{"flavour": "normal", "workload": aimed(rng.randint(1, 3))} for _ in range(n)]
         if rng.random() < 0.3:
             procs[0]["crash"] = {"tear_commit": rng.randrange(2), "num": rng.randrange(8), "den": 8}
         phases.append({"kind": "procs", "procs": procs, "sched": [rng.randrange(16) for _ in range(200)] if n > 1 else [], "sched_seed": rng.randrange(1 << 30)})
         if rng.random() < 0.4:
-            phases.append({"kind": "stale", "target": rng.choice(sorted(STALE_TARGETS)), "variant": rng.randrange(3)})
+            phases.append({"kind": "stale", "target": rng.choice(sorted(STALE_TARGETS)), "variant": rng.randrange(6)})
             phases.append({"kind": "procs", "procs": [{"flavour": "normal", "workload": aimed(2)}], "sched": [], "sched_seed": 0})
         phases.append({"kind": "heal"})
         return {"profile": "tiny", "phases": phases}
@@ -905,7 +936,7 @@ def gen_plan(family: str, i: int, rng: random.Random, tier: str) -> dict:
             if r < 0.7:
                 phases.append(_damage_phase(rng))
             else:
-                phases.append({"kind": "stale", "target": rng.choice(sorted(STALE_TARGETS)), "variant": rng.randrange(3)})
+                phases.append({"kind": "stale", "target": rng.choice(sorted(STALE_TARGETS)), "variant": rng.randrange(6)})
         if rng.random() < 0.5:
             phases.append(_procs_phase(rng, 3, crash_rate=0.0))
         else:
@@ -914,9 +945,12 @@ def gen_plan(family: str, i: int, rng: random.Random, tier: str) -> dict:
         return {"profile": profile, "phases": phases}
     if family in ("sweepq", "sweepd"):
         which = "quick" if family == "sweepq" else "data"
+        if tier == "quick" and which == "quick":
+            # the quick-info cache of the tiny profile is small (2908 bytes): every prefix length, 32 runs x 96 lengths
+            return {"profile": "tiny", "phases": [{"kind": "sweep", "file": which, "from": i * 96, "to": (i + 1) * 96, "stride": 1, "special": i == 0}]}
         if tier == "quick":
-            # strided sweep: run i covers offsets i, i+stride*1, ... (stride chosen so that 12 runs x ~10 cuts cover the file coarsely)
-            stride = 997 if which == "quick" else 2503
+            # strided sweep of the config cache: run i covers offsets i*83 mod stride, +stride, ... plus the special points
+            stride = 2503
             return {
                 "profile": "tiny",
                 "phases": [{"kind": "sweep", "file": which, "from": (i * 83) % stride, "to": 1 << 30, "stride": stride, "special": i == 0}],
@@ -961,7 +995,7 @@ def reductions(plan: dict):
             for qi, p in enumerate(ph["procs"]):
                 if len(p["workload"]) > 1:
                     yield from ddmin_lists(plan, [["phases", pi, "procs", qi, "workload"]])
-                for key in ("crash", "split"):
+                for key in ("crash", "split", "stall"):
                     if p.get(key):
                         c = copy.deepcopy(plan)
                         c["phases"][pi]["procs"][qi].pop(key)
